@@ -57,11 +57,12 @@ LEVEL_NOTE = ('Trusted: numpy.pad as the meaning of constant/reflect/wrap/'
               'vlib/ref/padding.py, the descriptor builder, and the library '
               'inner product in the Gram identity (pinned by C02). Known '
               'findings: operator adjoint ignores boundary-cell fractions '
-              '(F06 family) and ran_shp + positive offset on a shrinking '
-              'axis misplaces the range; both regions are still evaluated '
-              'for every other clause.')
+              '(F06 family) and differing constant weightings of an '
+              'explicit range; ran_shp + positive offset on a shrinking '
+              'axis misplaces the range; these regions are still evaluated '
+              'for every other clause (incl. exact transposition).')
 DESIGN_REF = 'DESIGN.md section 5, C16'
-BUDGET = {'quick': 2500, 'thorough': 80000}
+BUDGET = {'quick': 6000, 'thorough': 80000}
 TOLERANCES = {
     'forward values': 'bit-identical to the reference for constant / '
                       'symmetric / periodic / order0 (pure copies); order1: '
@@ -70,7 +71,10 @@ TOLERANCES = {
     'matrices': 'forward and adjoint matrices (entries are small integers) '
                 'equal the reference / its transpose exactly',
     'adjoint data': '|got - M^T y| <= 4*eps*(|M^T||y|), exact for integers',
-    'gram': 'max|N^T G_X - G_Y M| <= 64*eps*max(|lhs|,|rhs|)',
+    'gram': 'max|N^T G_X - G_Y M| <= (64*eps + g)*max(|lhs|,|rhs|); g = 0 '
+            'for ran_shp-built ranges (weighting inherited), g = 8*eps64*'
+            'sum_axes (|min|+|max|)/cell for an explicit range= (its cell '
+            'volume comes from its own grid stride)',
     'range geometry': '|limit - expected| <= 16*eps*(|min|+|max|+(cells '
                       'added+1)*cell side); cell sides to the same absolute '
                       'tolerance divided by the number of cells',
@@ -179,10 +183,13 @@ def _pad_const(draw, dtype, mode, castable_only=False):
 
 
 @st.composite
-def _axis(draw, max_old=7, max_new=7, min_size=0):
+def _axis(draw, max_old=7, max_new=7, min_size=0, regime=None):
     """(old, new, offset) for one axis, all regimes on purpose."""
-    regime = draw(st.sampled_from(['grow', 'grow', 'shrink', 'same',
-                                   'grow_big']))
+    if regime is None:
+        regime = draw(st.sampled_from(['grow', 'grow', 'shrink', 'same',
+                                       'grow_big']))
+    elif regime == 'grow':
+        regime = draw(st.sampled_from(['grow', 'grow', 'grow_big']))
     if regime == 'same':
         n = draw(st.integers(min_size, max_old))
         return n, n, 0
@@ -204,12 +211,22 @@ def _axis(draw, max_old=7, max_new=7, min_size=0):
     return n_old, n_new, off
 
 
+def _axes(draw, nd, kw):
+    """Per-axis (old, new, offset); with several axes, half of the cases mix
+    growing and shrinking axes on purpose."""
+    regimes = [None] * nd
+    if nd >= 2 and draw(st.booleans()):
+        regimes = draw(st.permutations(['grow', 'shrink'] +
+                                       [None] * (nd - 2)))
+    return [draw(_axis(regime=r, **kw)) for r in regimes]
+
+
 @st.composite
 def _array_case(draw):
     nd = draw(st.sampled_from([1, 2, 2, 3, 3]))
     cap = {1: 7, 2: 7, 3: 6}[nd]
-    axes = [draw(_axis(max_old=cap, max_new=cap + (3 if nd == 1 else 1)))
-            for _ in range(nd)]
+    axes = _axes(draw, nd, dict(max_old=cap,
+                                max_new=cap + (3 if nd == 1 else 1)))
     old = [a[0] for a in axes]
     new = [a[1] for a in axes]
     off = [a[2] for a in axes]
@@ -231,8 +248,8 @@ def _array_case(draw):
 def _op_case(draw):
     nd = draw(st.sampled_from([1, 1, 2, 2]))
     cap_old, cap_new = (6, 9) if nd == 1 else (5, 6)
-    axes = [draw(_axis(max_old=cap_old, max_new=cap_new, min_size=1))
-            for _ in range(nd)]
+    axes = _axes(draw, nd, dict(max_old=cap_old, max_new=cap_new,
+                                min_size=1))
     shape = [a[0] for a in axes]
     ran_shp = [a[1] for a in axes]
     off = [a[2] for a in axes]
@@ -240,10 +257,14 @@ def _op_case(draw):
                                   'float32', 'int64']))
     mins, cells = [], []
     for _ in range(nd):
-        mins.append(draw(st.sampled_from([0.0, -1.0, 2.0]) |
-                         st.floats(-5, 5).map(_f32)))
-        cells.append(draw(st.sampled_from([1.0, 0.5, 0.25, 2.0]) |
-                          st.floats(0.05, 4.0).map(_f32)))
+        # full-precision generic values on purpose: float32-rounded limits
+        # make all grid arithmetic exact and hide rounding in the offset
+        # computation
+        mins.append(draw(st.sampled_from([0.0, -1.0, 2.0, 0.1, -0.7]) |
+                         st.floats(-5, 5).map(_f32) | st.floats(-5, 5)))
+        cells.append(draw(st.sampled_from([1.0, 0.5, 0.25, 2.0, 0.1, 0.3]) |
+                          st.floats(0.05, 4.0).map(_f32) |
+                          st.floats(0.05, 4.0)))
     nobk = draw(st.sampled_from(['no', 'no', 'all', 'sides']))
     if min(shape) < 2 or dtype == 'int64':
         nobk = 'no'
@@ -293,7 +314,7 @@ def _op_case(draw):
 
 
 def strategy(tier):
-    return st.one_of(_array_case(), _array_case(), _op_case())
+    return st.one_of(_array_case(), _op_case())
 
 
 # --------------------------------------------------------------------------
@@ -970,7 +991,12 @@ def _run_op(desc):
         scale = max(np.abs(lhs).max(initial=0), np.abs(rhs).max(initial=0),
                     1e-300)
         defect = float(np.abs(lhs - rhs).max(initial=0) / scale)
-        if not defect <= 64 * np.finfo(dt).eps:
+        # an explicitly given range computes its own cell volume from its
+        # own grid stride: relative deviation of a few ulp(coordinate)/cell
+        geom = 8 * feps * sum(
+            (abs(float(op.range.min_pt[i])) + abs(float(op.range.max_pt[i])))
+            / dxs[i] for i in np.arange(nd)) if desc['how'] == 'range' else 0
+        if not defect <= 64 * np.finfo(dt).eps + geom:
             v = Violation('C16|gram|' + sigt,
                           '<Ax,y>_ran != <x,A*y>_dom: Gram defect {:.3g} '
                           'for {} -> {} offset {} (domain nodes_on_bdry '
